@@ -30,8 +30,15 @@ Case vf_generate() {
 
 static std::set<std::string> expected_saved(ga::App &m) {
   std::set<std::string> e;
-  for (auto &p : m.spec.root)
-    if (p.has_default && !ga::get_root(m.root, p.field).eq(p.default_for(m.root.preset), ga::kind_of(p.field))) e.insert(std::string("/") + ga::name_of(p.field));
+  for (auto &p : m.spec.root) {
+    if (!p.has_default) continue;
+    if (ga::kind_of(p.field) == ga::K_ABOOL) {   // 'vp#3/on': every element is its own line
+      ga::Val cur = ga::get_root(m.root, p.field);
+      for (size_t k = 0; k < 3; k++) if (cur.ai[k] != p.default_for(m.root.preset).ai[k]) e.insert("/vp" + std::to_string(k) + "/on");
+      continue;
+    }
+    if (!ga::get_root(m.root, p.field).eq(p.default_for(m.root.preset), ga::kind_of(p.field))) e.insert(std::string("/") + ga::name_of(p.field));
+  }
   std::vector<ga::Sub *> ss = m.subs();
   std::vector<std::string> pre = m.sub_prefixes();
   for (size_t k = 0; k < ss.size(); k++) {
